@@ -72,7 +72,9 @@ Checks(ln) ==
   IN
   <<Chk(o.utx = 0, 0, "INTERNAL", "utls over its TLS leg", "ux"),
     Chk((o.sc = 0 \/ o.cc = -1) /\ (o.cc = 0 \/ o.ac = -1), 0, "INTERNAL", "no call after a failed creation", <<o.sc, o.cc, o.ac>>),
-    Chk(o.late = 0, 0, "INTERNAL", "late xcm_attr_set on the server socket accepted", o.late)>>
+    \* writes to the server socket after its creation are refused with EACCES (creation-only attributes, property C11);
+    \* here only noted - the evaluation above already assumes that they change nothing
+    Chk(o.late = (IF cell.L = EmptyMap THEN 0 ELSE 13), 0, "NOTE.late_set", IF cell.L = EmptyMap THEN 0 ELSE 13, o.late)>>
   \o Creation(10, "xcm_server_a", ev.so, ev.unusable.s, o.sc)
   \o Creation(11, "xcm_connect_a", ev.co, ev.unusable.c, IF o.sc # 0 THEN -1 ELSE o.cc)
   \o Creation(12, "xcm_accept_a", ev.ao, ev.unusable.a, IF o.sc # 0 \/ o.cc # 0 THEN -1 ELSE o.ac)
